@@ -16,7 +16,8 @@
 (***************************************************************************)
 EXTENDS Naturals, Sequences, FiniteSets, TLC, SequencesExt
 
-EntryNames == {"Foo", "bar", "Baz", "qux"}
+\* "Fob" is a twin of "Foo": the same docstring text (class and __init__), another signature
+EntryNames == {"Foo", "bar", "Baz", "qux", "Fob"}
 Tpl == {"suffix", "prefix"}                      \* "{name}Config" | "Cfg{name}"
 Templated(t, n) == IF t = "suffix" THEN n \o "Config" ELSE "Cfg" \o n
 Types == {"class", "function", "argparse"}
